@@ -18,3 +18,36 @@ package interp
 //@ fields emptied: Vars dirStack bgProcs
 //@ fields derived: writeEnv didReset
 //@ fields zero: Funcs alias execMiddlewares ecfg ectx filename breakEnclosing contnEnclosing inLoop inFunc inSource handlingTrap sourceSetParams noErrExit exit lastExit lastExpandExit dirBootstrap optState keepRedirs callbackErr callbackExit
+
+// ---- C28: no index, slice, division, type assertion or explicit panic can fail in these functions,
+// for every value of their arguments (strconv.Atoi etc. return any integer). A contract without clauses
+// asks for the safety obligations only. ----
+
+//@ func Runner.builtin
+//@ props C28
+
+// getopts state is private to the runner: both counters never go negative (object invariant, re-established by next).
+//@ func getopts.next
+//@ props C28
+//@ requires [state-nonneg] g.argidx >= 0 && g.runeidx >= 0
+//@ ensures [state-nonneg] g.argidx >= 0 && g.runeidx >= 0
+//@ modifies *g
+
+//@ func flagParser.more
+//@ props C28
+//@ func flagParser.value
+//@ props C28
+// flag() is only called after more() returned true: then an argument is pending.
+//@ func flagParser.flag
+//@ props C28
+//@ requires [after-more] p.current != "" || len(p.remaining) > 0
+
+//@ func cutElemSubscript
+//@ props C28
+
+//@ func mapfileSplit$1
+//@ props C28
+
+//@ func Runner.readLine
+//@ props C28
+//@ loop 1 invariant [esc-means-nonempty] implies(esc, len(line) > 0)
